@@ -88,6 +88,7 @@ func (c *collector) add(sig, msg, desc string, b []byte) {
 func short(err error) string {
 	s := err.Error()
 	s = strings.TrimPrefix(s, "tcp transport: receive: ")
+	s = strings.TrimPrefix(s, "ws transport: receive: ") // one root cause, one signature, whichever transport met it
 	for { // keep the innermost "X for type T: cause" of nested marshalling errors
 		i := strings.Index(s, "json: error calling ")
 		if i < 0 {
